@@ -18,7 +18,7 @@ for f in sorted(glob.glob(f"{V}/seeded/*/meta.json")):
     chk = m.get("check", {})
     tier = next((t for t in ("quick", "thorough") if chk.get(t, {}).get("violations")), None)
     if tier is None:
-        res = "**missed** (quick" + (" and thorough" if "thorough" in chk else "") + ")"
+        res = ("**no verdict** (check did not terminate in time)" if chk.get("quick", {}).get("wall_s") == -1 else "**missed** (quick" + (" and thorough" if "thorough" in chk else "") + ")")
         key = ""
     else:
         v = chk[tier]["violations"][0]
